@@ -34,5 +34,6 @@ def run(rep):
     # free text, names and cell texts are exact: only line terminators are cut from matched text; cells are split as documented
     mr.rule_sink(rep, "C03.sinkcol", "C03.crlf", want=("crlf",))
     lr.rule_split(rep, "C03.split", "C03.splitcol")
+    lr.rule_split_init(rep, "C03.cells")
     # no hidden state: what the property promises for one use must hold for every later use as well
     ms.rule_stateless(rep, "C03")
